@@ -274,5 +274,5 @@ SUBCHECKS = [
     SubCheck("all_positions", run_case_all, strategy=lambda: c01.st_case(threaded=True), quick=48, thorough=3000),
     # strax's multiprocessing path (inlined plugins and forked savers behind a simulated process boundary)
     SubCheck("spread_multiprocess", run_case, strategy=lambda: c01.st_case(threaded=True, multiprocess=True),
-             quick=240, thorough=6000),
+             quick=96, thorough=6000),
 ]
